@@ -27,7 +27,7 @@ ASSUMPTIONS = [
     "trajectories are only compared between runs using the same sparse format (summation order may legitimately depend on the format)",
 ]
 TIERS = {
-    "quick": {"worlds": 220, "wall": 150, "cap": 25, "limit": 90.0},
+    "quick": {"worlds": 330, "wall": 150, "cap": 16, "limit": 90.0},
     "thorough": {"worlds": 5000, "wall": 1700, "cap": 80, "limit": 240.0},
 }
 GATES = ("reuse.cached", "reuse.memo", "worlds.scaled", "worlds.offset_rows", "worlds.slack_rows")
@@ -37,7 +37,15 @@ def generate(rng, seed, index, tier):
     fam = str(rng.choice(["qp", "nlp", "degenerate", "domain"], p=[0.5, 0.35, 0.1, 0.05]))
     spec, x0, y0 = gen.gen_problem(rng, fam)
     kw = gen.gen_params(rng, spec, x0, y0, p_knob=0.45, reporting=False, scaling=False)
-    if rng.random() < 0.65:
+    # aliasing bugs live in one formulation each: sweep step solvers and Newton types uniformly
+    kw["step_solver_type"] = str(rng.choice(["Standard", "Extended", "Symmetric", "Asymmetric"]))
+    if kw.get("linear_solver_type") == "MINRES" and kw["step_solver_type"] != "Symmetric":
+        kw["linear_solver_type"] = "LU"
+    kw["newton_type"] = str(rng.choice(["Simplified", "Full", "ActiveSet", "Globalized"], p=[0.3, 0.3, 0.3, 0.1]))
+    if rng.random() < 0.3:
+        spec["m"], spec["A"], spec["B"], spec["b"], spec["cl"], spec["cu"] = 0, np.zeros((0, spec["n"])), np.zeros((0, spec["n"])), np.zeros(0), np.zeros(0), np.zeros(0)
+        y0 = np.zeros(0)
+    if rng.random() < 0.5:
         st = str(rng.choice(["GradJac", "KKT", "Nominal", "Custom"], p=[0.15, 0.15, 0.15, 0.55]))
         kw["scaling_type"] = st
         if st == "Custom":
